@@ -11,7 +11,9 @@ import threading as real_threading
 import dsched
 
 KINDS = ["ok", "exc", "baseexc", "badres", "badarg"]
-KINDS_TIMEOUT = KINDS + ["slow_to", "slow_to", "ok"]        # slow_to: slow method called with a short rpc_timeout
+KINDS_TIMEOUT = KINDS + ["slow_to", "slow_to", "ok"]
+KINDS_LOCKQ = ["ok", "islocked", "ok", "exc", "islocked"]   # lock-control requests travel the same queue as method calls
+CUR_TAG = {}                                                # thread ident -> tag of the call being issued        # slow_to: slow method called with a short rpc_timeout
 FAULTS = ["none", "remove", "stop_server", "stop_client", "disconnect", "remove_then_stop"]
 
 
@@ -82,7 +84,7 @@ def install_probes(trace):
 
     def tag_of(msg):
         args = getattr(msg, "method_args", None)
-        return args[0] if args else None
+        return args[0] if args else CUR_TAG.get(real_threading.get_ident())
 
     class _PerThread(dict):
         def __getitem__(self, k):
@@ -417,6 +419,10 @@ def scenario(s, spec):
             obs["calls"][tag] = rec
             meth = "ok" if kind == "badarg" else kind
             payload = real_threading.Lock() if kind == "badarg" else None
+            CUR_TAG[real_threading.get_ident()] = tag
+            if kind == "islocked":
+                finish(rec, proxy.is_locked)
+                continue
             if kind == "slow_to":
                 finish(rec, lambda: proxy.slow(tag, None, rpc_timeout=1.0))
                 continue
@@ -463,6 +469,7 @@ def scenario(s, spec):
     if f in ("none", "disconnect", "stop_client"):
         rec = {"caller": "main", "kind": "ok", "remote": False, "result": None, "done": False, "future": None}
         obs["calls"]["later"] = rec
+        CUR_TAG[real_threading.get_ident()] = "later"
         try:
             obs["later_call"] = repr(lp.ok("later"))
             rec["result"] = ("value", obs["later_call"])
